@@ -19,6 +19,12 @@
    vn_unknown_parameter_list: vpmr_frequencies, gamma vector present, vectors bitwise unchanged) and
    injected allocation failures (allocwrap: the first request, a random request before the write-back,
    each calloc of the write-back) are compared with the model after every solve.
+6. Session 5: the theorems determining_set_solves / system_verdict_by_count_and_rank / count_test_and_full_rank_solve
+   (coq/SolveCount/Determining*.v) about the executable numeric model of the non-iterative solve; numeric_model_tie runs
+   that model (extracted, ocaml/drv_calcore2) at sampled solve points against the library's equation counters, the exact
+   rank of the oracle, the true terms (exact) and the library's terms; families gen_minimal_scaled (square minimal
+   determining sets, receiver readings scaled by 1e-7 .. 1e7) and gen_resolve_vector (re-solves after a success with a
+   standard given as a frequency table off the calibration grid).
 """
 import itertools
 import os
@@ -31,6 +37,8 @@ from solvecount import QI, ZERO, ONE
 
 TOL = 1e-8
 COND_LIMIT = 1e5
+NUMERIC_MAX_UNKNOWNS = 8        # ocaml/drv_calcore2 solves systems of up to 8 unknowns exactly
+TYPE_CODE = {"T8": 0, "U8": 1, "TE10": 2, "UE10": 3, "T16": 4, "U16": 5, "UE14": 6, "E12": 7}   # E12 = _VNACAL_E12_UE14
 
 
 # ---------------------------------------------------------------------------- scenario generation
@@ -39,10 +47,12 @@ def fx(x):
 
 
 class Scenario(object):
-    def __init__(self, ty, r, c, F, rng, sid):
+    def __init__(self, ty, r, c, F, rng, sid, scale=1):
         self.ty, self.r, self.c, self.F, self.sid = ty, r, c, F, sid
         self.P = max(r, c)
-        self.terms = sc.Terms(ty, r, c, rng)
+        self.scale = Fraction(scale)
+        self.terms = sc.Terms(ty, r, c, rng, scale=scale)
+        self.slotf = {}         # slot -> (values at the calibration frequencies, table knots (GHz), table values): vector parameters
         self.slots = {0: ZERO, 1: ONE, 2: QI(-1)}
         self.slot_kind = {0: "known", 1: "known", 2: "known"}
         self.ops = []           # ("par",k) ("unk",k,g) ("merr",x) ("add",std) ("solve",) ("terms",) ("apply",S)
@@ -64,7 +74,19 @@ class Scenario(object):
         return k
 
 
-def make_pool(s, rng, with_unknown=False):
+def vector_slot(s, fn, knots):
+    """a known parameter given as a table over frequency (vnacal_make_vector_parameter): fn(x) exact, x = f / 1 GHz;
+    the calibration frequencies are 1, 2, .. GHz; slots[k] = the value at the first calibration frequency"""
+    k = len(s.slots)
+    at_f = [fn(Fraction(f + 1)) for f in range(s.F)]
+    s.slots[k] = at_f[0]
+    s.slot_kind[k] = "known"
+    s.slotf[k] = (at_f, list(knots), [fn(x) for x in knots])
+    s.ops.append(("vpar", k))
+    return k
+
+
+def make_pool(s, rng, with_unknown=False, vector_gamma=False):
     """Standard list for one scenario: reflects per port, double reflects / throughs / lines per pair,
     full-matrix standards."""
     P = s.P
@@ -72,7 +94,21 @@ def make_pool(s, rng, with_unknown=False):
     # parameters used below over the growth points 8, 16, 32 of the per-calibration parameter hash
     for _ in range(rng.choice([0, 0, 1, 2, 5, 5, 7, 13, 13, 21, 29])):
         s.new_slot(QI(Fraction(rng.randint(1, 9), 11), Fraction(rng.randint(1, 9), 13)))
-    g1 = s.new_slot(QI(Fraction(3, 10), Fraction(2, 5)))
+    if vector_gamma:
+        # a frequency-dependent reflect tabulated OFF the calibration grid on more points than the interpolation order,
+        # smooth enough that the interpolation error is far below the tolerance (spacing 0.0213 GHz, variation scale
+        # several GHz), not a low-order rational function of f
+        g0 = QI(Fraction(3, 10), Fraction(2, 5))
+        q = Fraction(rng.randint(30, 60))
+        w = Fraction(rng.randint(8, 14))
+
+        def gfun(x):
+            return g0 * QI(1, x / w) / QI(1 + x * x * x / q, x * x / (q + 7))
+        h = Fraction(213, 10000)
+        knots = [Fraction(613, 1000) + h * j for j in range(int((s.F + Fraction(1, 2) - Fraction(613, 1000)) / h) + 1)]
+        g1 = vector_slot(s, gfun, knots)
+    else:
+        g1 = s.new_slot(QI(Fraction(3, 10), Fraction(2, 5)))
     g2 = s.new_slot(QI(Fraction(-1, 5), Fraction(1, 2)))
     tl = s.new_slot(QI(Fraction(1, 2), Fraction(-1, 3)))
     pool = []
@@ -146,6 +182,17 @@ def add_line(s, st):
     if M is None:
         return None, None, None, None
     vals = " ".join(fx(M[i][j]) for i in rows for j in cols)
+    vslots = [st.S[a][b][0] for a in range(len(st.S)) for b in range(len(st.S[a])) if st.S[a][b][0] in s.slotf]
+    if vslots and s.F > 1:
+        # a frequency-dependent standard: the measurement at each further calibration frequency
+        import copy
+        for f in range(1, s.F):
+            stf = copy.copy(st)
+            stf.S = [[(k, s.slotf[k][0][f]) if k in s.slotf else (k, v) for (k, v) in row] for row in st.S]
+            Mf = s.terms.measure(sc.true_S(stf, P))
+            if Mf is None:
+                return None, None, None, None
+            vals += " " + " ".join(fx(Mf[i][j]) for i in rows for j in cols)
     return head + " " + vals, head, M, know
 
 
@@ -173,6 +220,12 @@ def emit(s):
     for op in s.ops:
         if op[0] == "par":
             cl.append("par %d %s" % (op[1], fx(s.slots[op[1]])))
+            ml.append("par %d" % op[1])
+            recs.append({"op": "par"})
+        elif op[0] == "vpar":
+            at_f, knots, vals = s.slotf[op[1]]
+            cl.append("vpar %d %d %s %s" % (op[1], len(knots), " ".join(float(x * 10 ** 9).hex() for x in knots),
+                                            " ".join(fx(v) for v in vals)))
             ml.append("par %d" % op[1])
             recs.append({"op": "par"})
         elif op[0] == "unk":
@@ -309,6 +362,8 @@ def evaluate(ctx, s, recs, cout, mout, stats, use_model):
     last_solve_rc = None        # rc of the previous solve if nothing was added / changed since
     final = {}
     unk_per_sys = sc.doc_unknowns_per_system(s.ty, s.r, s.c)
+    accepted = []               # records of the accepted adds so far (for the numeric-model tie)
+    s.last_np = None
     for i, rec in enumerate(recs):
         cd = parse_kv(cout[i])
         md = parse_kv(mout[i]) if (use_model and rec["op"] not in ("terms",)) else None
@@ -349,6 +404,7 @@ def evaluate(ctx, s, recs, cout, mout, stats, use_model):
                 bad("state", "add changed the calibration")
             if cd["rc"] == "0":
                 orc.add(rec)
+                accepted.append(rec)
             elif rec["std"] is not None:
                 bad("accept", "a documented standard was rejected: " + rec["std"].key())
             ctx.traces_validated += 1 if md is not None else 0
@@ -385,6 +441,8 @@ def evaluate(ctx, s, recs, cout, mout, stats, use_model):
                     ctx.count(("one-short-correlated", s.ty, s.r, s.c, c_tot, c_unk, c_corr))
             ok = cd["rc"] == "0"
             stats["solves"] += 1
+            if ok:
+                s.n_ok = getattr(s, "n_ok", 0) + 1
             final = {"counts": counts, "deficient": deficient, "ok": ok}
             # ---- re-entrancy / state invariants, always
             if cd["stsame"] != "1":
@@ -429,6 +487,14 @@ def evaluate(ctx, s, recs, cout, mout, stats, use_model):
                 if ok and cd.get("pv"):
                     stats["writebacks"] += 1
                 ctx.traces_validated += 1
+            # ---- a point for the numeric-model tie (numeric_model_tie): known standards, exact oracle, small systems
+            s.last_np = None
+            if (p_len == 0 and not orc.unmodelled and not s.merr and exact and unk_per_sys <= NUMERIC_MAX_UNKNOWNS
+                    and not getattr(s, "nofreq", False) and cd.get("trl") != "1"):
+                fe_ = orc.full_rank_exact()
+                rec["np"] = {"adds": list(accepted), "counts": counts, "ok": ok, "fe": fe_, "el": orc.el_determined(),
+                             "wc": (orc.well_conditioned()[0] if fe_ else False), "index": i, "terms_line": None}
+                s.last_np = rec["np"]
             # ---- required outcomes
             verdict = "unconstrained"
             if getattr(s, "nofreq", False):
@@ -457,6 +523,9 @@ def evaluate(ctx, s, recs, cout, mout, stats, use_model):
                     if wc:
                         verdict = "solve"
                         stats["solve_required"] += 1
+                        if s.scale != 1 and all(x == unk_per_sys for x in mcounts):
+                            stats["square_scaled_required"] += 1
+                            ctx.count(("square-scaled", s.ty, s.r, s.c, str(s.scale)))
                         stats["worst_cond"] = max(stats["worst_cond"], cn)
                         if not ok:
                             bad("determining", "a determining set of standards was not solved (errno %s)" % cd["errno"])
@@ -514,6 +583,9 @@ def evaluate(ctx, s, recs, cout, mout, stats, use_model):
             last_solve_rc = None
             continue
         if op == "terms":
+            if s.last_np is not None:
+                s.last_np["terms_line"] = cout[i]
+                s.last_np = None
             if getattr(s, "last_verdict", None) == "solve" and s.last_ok:
                 p = cout[i].split()
                 if p[1] == "none":
@@ -533,8 +605,13 @@ def evaluate(ctx, s, recs, cout, mout, stats, use_model):
                         worst = max(worst, abs(got - want) / max(1.0, abs(want)))
                 stats["worst_term_error"] = max(stats["worst_term_error"], worst)
                 if not worst <= TOL:
-                    bad("determining", "solved error terms differ from the true terms by %.3g (relative)" % worst)
+                    bad("determining", "solved error terms differ from the true terms by %.3g (relative)%s" % (
+                        worst, " (a re-solve after a successful solve, standards given as frequency tables)"
+                        if s.slotf and getattr(s, "n_ok", 0) >= 2 else ""))
                 stats["terms_checked"] += 1
+                if s.slotf and getattr(s, "n_ok", 0) >= 2:
+                    stats["vector_resolve_terms"] += 1
+                    ctx.count(("vector-resolve", s.ty, s.r, s.c, s.sid, i))
             continue
         if op == "apply":
             had_cal = False
@@ -565,6 +642,172 @@ def evaluate(ctx, s, recs, cout, mout, stats, use_model):
             if cd.get("live") != "0":
                 bad("leak", "%s blocks still live after vnacal_new_free / vnacal_free" % cd.get("live"))
     return problems, final
+
+
+# ---------------------------------------------------------------------------- the numeric model at the solve points
+def fsq(x):
+    x = Fraction(x)
+    return "%d/%d" % (x.numerator, x.denominator) if x.denominator != 1 else str(x.numerator)
+
+
+def numeric_add_line(s, rec):
+    """the _vnacal_new_add_common arguments of an accepted standard + its exact full M matrix, in the format of
+    ocaml/drv_calcore2.ml (handles = slot numbers: 0 = VNACAL_ZERO, 1 = VNACAL_ONE, 2 = -1)"""
+    st, know, M = rec["std"], rec["know"], rec["M"]
+    if st.kind == "r1":
+        sr, scn, diag, hs = 1, 1, 1, [st.S[0][0][0]]
+    elif st.kind == "r2":
+        sr, scn, diag, hs = 2, 2, 1, [st.S[0][0][0], st.S[1][1][0]]
+    elif st.kind == "th":
+        sr, scn, diag, hs = 2, 2, 0, [0, 1, 1, 0]
+    elif st.kind == "ln":
+        sr, scn, diag, hs = 2, 2, 0, [st.S[0][0][0], st.S[0][1][0], st.S[1][0][0], st.S[1][1][0]]
+    else:
+        n = len(st.ports)
+        sr, scn, diag, hs = n, n, 0, [st.S[a][b][0] for a in range(n) for b in range(n)]
+    mp = list(st.ports)
+    mv = " ".join("%s %s" % (fsq(M[i][j].re), fsq(M[i][j].im)) for i in range(s.r) for j in range(s.c))
+    return "add 0 0 0 %d %d %d %d %d 1 %d %s %d %s %d %s" % (
+        len(know.rows), len(know.cols), sr, scn, diag, len(mp), " ".join(str(x) for x in mp),
+        len(hs), " ".join(str(x) for x in hs), s.r * s.c, mv)
+
+
+def parse_qi_list(tokens):
+    v = [Fraction(t) for t in tokens]
+    return [QI(v[k], v[k + 1]) for k in range(0, len(v) - 1, 2)]
+
+
+def numeric_model_tie(ctx, points, stats):
+    """Session 5.  At solve points of the histories (known standards, no error modelling, systems of at most 8 unknowns)
+    the executable numeric model of the solve (coq/Cal/SolveSimple.v + CalQI.q_solve_system / q_error_terms, extracted:
+    ocaml/drv_calcore2) is run on the accepted standards with the EXACT measurements and compared with
+      (a) the library's equation counters per system            (hypothesis counts_agree of count_test_and_full_rank_solve),
+      (b) the exact rank verdict of the oracle lib/solvecount.py (system_verdict_by_count_and_rank: ok <=> full column rank),
+      (c) the true error terms, exactly                          (determining_set_solves),
+      (d) the library: insufficient => EDOM; ok and well conditioned => success with the model's terms within 1e-8.
+    Returns the number of problems."""
+    import calcore
+    try:
+        drv = calcore.model_driver(ctx, "drv_calcore2")
+    except vplib.BuildError as e:
+        ctx.obligation("tie:numeric-model driver", False, str(e)[:200])
+        return 1
+    lines = []
+    for s, rec in points:
+        np_ = rec["np"]
+        lines.append("cfg %d %d %d %d" % (TYPE_CODE[s.ty], s.r, s.c, len(s.slots)))
+        for k in sorted(s.slots):
+            if s.slot_kind[k] == "known":
+                lines.append("pval %d %s %s" % (k, fsq(s.slots[k].re), fsq(s.slots[k].im)))
+        for a in np_["adds"]:
+            lines.append(numeric_add_line(s, a))
+        lines.append("system")
+    import time as _time
+    _t0 = _time.time()
+    rc, out, err = vplib.sh([drv], input="\n".join(lines) + "\n", timeout=1500)
+    ctx.log("numeric model: %d points, driver %.1fs" % (len(points), _time.time() - _t0))
+    if rc != 0:
+        ctx.obligation("tie:numeric-model driver", False, "drv_calcore2 failed: " + err[-300:])
+        return 1
+    blocks = out.split("endsystem\n")
+    nbad = 0
+    reported = 0
+
+    def bad(s, rec, what, library=False):
+        nonlocal nbad, reported
+        nbad += 1
+        if reported < 3:
+            reported += 1
+            np_ = rec["np"]
+            replay = {"type": s.ty, "dims": "%dx%d" % (s.r, s.c),
+                      "standards": [a["std"].key() for a in np_["adds"]], "c_counts": np_["counts"], "c_solve_ok": np_["ok"],
+                      "model_input": [numeric_add_line(s, a)[:400] for a in np_["adds"]][:12]}
+            if library:
+                ctx.violation({"kind": "disagreement", "op": "vnacal_new_solve", "class": "numeric-model"},
+                              "%s %dx%d, solve after %d standards: %s" % (s.ty, s.r, s.c, len(np_["adds"]), what), replay)
+            else:
+                ctx.log("numeric-model tie: %s %dx%d: %s; %s" % (s.ty, s.r, s.c, what, replay))
+    for (s, rec), blk in zip(points, blocks):
+        np_ = rec["np"]
+        ctx.count(("numeric-model", s.ty, s.r, s.c, tuple(np_["counts"]), np_["fe"]))
+        bl = blk.split("\n")
+        if any(l.startswith("add ") and l != "add rc=0" for l in bl):
+            bad(s, rec, "the add model refuses a standard the library accepted: %s" % [l for l in bl if l.startswith("add ")], True)
+            continue
+        sysl = [l.split() for l in bl if l.startswith("SYS ")]
+        el = [l for l in bl if l.startswith("E ")]
+        if len(sysl) != len(np_["counts"]) or not el:
+            bad(s, rec, "malformed model output")
+            continue
+        stats["numeric_points"] += 1
+        ctx.traces_validated += 1
+        verdicts = [x[2] for x in sysl]
+        nrows = [int(x[3]) for x in sysl]
+        unk = sc.doc_unknowns_per_system(s.ty, s.r, s.c)
+        # (a) the two models and the library count the same equations
+        if nrows != np_["counts"]:
+            bad(s, rec, "assembled rows per system %s differ from vns_equation_count %s" % (nrows, np_["counts"]), True)
+            continue
+        if any((v == "insufficient") != (n < unk) for v, n in zip(verdicts, nrows)):
+            bad(s, rec, "model verdicts %s do not follow the counts %s (unknowns %d)" % (verdicts, nrows, unk))
+            continue
+        insufficient = any(v == "insufficient" for v in verdicts)
+        model_ok = all(v == "ok" for v in verdicts)
+        if (el[0] != "E none") != model_ok:
+            bad(s, rec, "q_error_terms answers although a system did not solve (or conversely)")
+            continue
+        leak_ok = (not sc.has_leak(s.ty)) or np_["el"]
+        if insufficient:
+            stats["numeric_insufficient"] += 1
+            if np_["ok"]:
+                bad(s, rec, "the numeric model has too few equations (%s, %d unknowns) but the library solved" % (nrows, unk), True)
+            continue
+        # (b) rank verdict of the model = exact rank of the oracle
+        if leak_ok:
+            if model_ok != np_["fe"]:
+                bad(s, rec, "rank verdict of the numeric model (%s) differs from the exact rank of the oracle (full rank: %s)"
+                    % (verdicts, np_["fe"]))
+                continue
+        if not model_ok:
+            stats["numeric_singular"] += 1
+            if np_["ok"]:
+                stats["numeric_singular_but_library_solved"] += 1     # best effort: nothing is claimed
+            continue
+        stats["numeric_ok"] += 1
+        E = parse_qi_list(el[0].split()[1:])
+        # (c) the model returns the true terms, exactly
+        if leak_ok:
+            want = s.terms.expected_vector()
+            if len(E) != len(want) or any(not (a == b) for a, b in zip(E, want)):
+                bad(s, rec, "the numeric model solves but does not return the true error terms")
+                continue
+            stats["numeric_terms_exact"] += 1
+        # (d) the library against the model
+        if np_["wc"] and leak_ok:
+            if not np_["ok"]:
+                bad(s, rec, "the numeric model solves a well-conditioned determining set, the library does not", True)
+                continue
+            tl = np_.get("terms_line")
+            if tl:
+                p = tl.split()
+                if p[1] != "none":
+                    nt, nf = int(p[1]), int(p[2])
+                    vals = [float(x) for x in p[3:]]
+                    if nt != len(E):
+                        bad(s, rec, "the library saves %d error terms, the model %d" % (nt, len(E)), True)
+                        continue
+                    worst = 0.0
+                    for f in range(nf):
+                        for t in range(nt):
+                            got = complex(vals[2 * (f * nt + t)], vals[2 * (f * nt + t) + 1])
+                            w = E[t].to_c()
+                            worst = max(worst, abs(got - w) / max(1.0, abs(w)))
+                    stats["numeric_worst_term_error"] = max(stats["numeric_worst_term_error"], worst)
+                    if not worst <= TOL:
+                        bad(s, rec, "error terms of the library differ from the numeric model by %.3g (relative)" % worst, True)
+                        continue
+                    stats["numeric_terms_vs_library"] += 1
+    return nbad
 
 
 # ---------------------------------------------------------------------------- scenario families
@@ -645,6 +888,119 @@ def gen_scenarios(ctx):
                         s.ops.append(("solve",))
                     build_history(s, pool, list(order), rng, apply_prob=0.3)
                     scen.append(s)
+    return scen
+
+
+SCALES = [Fraction(1, 10 ** e) for e in (3, 5, 6, 7)] + [Fraction(10 ** e) for e in (3, 5, 6, 7)] + \
+         [Fraction(1, 2 ** e) for e in (10, 20, 23)] + [Fraction(2 ** e) for e in (10, 20, 23)]
+
+
+def oracle_rows(s, know, M):
+    """the non-trivial equations (coefficient rows per system) the oracle derives from one accepted standard"""
+    El = s.terms.El
+    Mp = [[(M[i][j] - El[i][j]) if know.measured[i][j] else sc.UNKNOWN for j in range(s.c)] for i in range(s.r)]
+    eqs = sc.equations_for(s.ty, s.r, s.c, know, Mp)
+    return {k: [coeffs for coeffs, rhs in lst if not sc.is_trivial(coeffs, rhs)] for k, lst in eqs.items()}
+
+
+def minimal_set(s, pool, rng):
+    """greedy: standards (in random order) every equation of which is independent of the equations so far, until every
+    system has full column rank: a determining set with as many equations as unknowns (square systems: the LU branch)"""
+    import copy
+    nsys = sc.doc_systems(s.ty, s.c)
+    nunk = sc.doc_unknowns_per_system(s.ty, s.r, s.c)
+    gf = [sc.RankGF(nunk) for _ in range(nsys)]
+    order = list(range(len(pool)))
+    rng.shuffle(order)
+    chosen = []
+    for idx in order:
+        c_line, m_line, M, know = add_line(s, pool[idx])
+        if c_line is None:
+            continue
+        rows = oracle_rows(s, know, M)
+        trial = copy.deepcopy(gf)
+        ok, gain = True, 0
+        for k, lst in rows.items():
+            before = trial[k].rank()
+            for row in lst:
+                trial[k].add(row)
+            if trial[k].poisoned or trial[k].rank() - before != len(lst):
+                ok = False
+                break
+            gain += len(lst)
+        if ok and gain > 0:
+            gf = trial
+            chosen.append(idx)
+            if all(g.rank() == nunk for g in gf):
+                return chosen
+    return None
+
+
+def gen_minimal_scaled(ctx):
+    """Minimal determining sets (as many equations as unknowns in every system, found with the oracle) measured by a VNA
+    whose raw readings are scaled by 1e-7 .. 1e7 / 2^-23 .. 2^23: the property speaks of every determining set and the
+    magnitude of the receiver readings is arbitrary.  Every type that can have square systems, dimensions up to 3."""
+    import random
+    rng = ctx.rng
+    quick = ctx.tier == "quick"
+    scen = []
+    sid = 500000
+    for ty in sc.TYPES:
+        if ty in ("T16", "U16"):
+            continue            # even number of equations per standard, odd number of unknowns: never square
+        for (r, c) in dims_for(ty, 3):
+            for rep in range(1 if quick else 5):
+                for attempt in range(4):
+                    seed = rng.getrandbits(48)
+                    prng = random.Random(seed)
+                    scale = prng.choice(SCALES)
+                    s = Scenario(ty, r, c, 1 + rep % 2, prng, sid, scale=scale)
+                    pool = make_pool(s, prng)
+                    for st in pool:
+                        st.abbrev_rows = st.abbrev_cols = False
+                    chosen = minimal_set(s, pool, prng)
+                    if chosen is not None:
+                        break
+                if chosen is None:
+                    continue
+                sid += 1
+                s.group = None
+                s.merr = False
+                s.exact = sc.doc_unknowns_per_system(ty, r, c) <= 15
+                build_history(s, pool, chosen, prng, apply_prob=0.7)
+                scen.append(s)
+    return scen
+
+
+def gen_resolve_vector(ctx):
+    """Re-solves after a SUCCESSFUL solve with a standard given as a frequency table off the calibration grid (more points
+    than the interpolation order, smooth): solve after every add, three calibration frequencies; every solve after the
+    first successful one must still return the true terms at every frequency."""
+    import random
+    rng = ctx.rng
+    quick = ctx.tier == "quick"
+    scen = []
+    sid = 600000
+    for ty in sc.TYPES:
+        for (r, c) in [(1, 1), (2, 2)] + ([] if quick else [d for d in dims_for(ty, 2) if d[0] != d[1]]):
+            for rep in range(2 if quick else 8):
+                prng = random.Random(rng.getrandbits(48))
+                s = Scenario(ty, r, c, 3, prng, sid)
+                sid += 1
+                pool = make_pool(s, prng, vector_gamma=True)
+                vec = [i for i, st in enumerate(pool) if any(k in s.slotf for row in st.S for (k, v) in row)]
+                rest = [i for i in range(len(pool)) if i not in vec]
+                prng.shuffle(rest)
+                cap = 7 if max(r, c) == 1 else (12 if ty not in ("T16", "U16") else 16)
+                order = rest[:cap]
+                # one or two table standards among the first adds
+                for i in prng.sample(vec, min(len(vec), prng.randint(1, 2))):
+                    order.insert(prng.randint(0, min(2, len(order))), i)
+                s.group = None
+                s.merr = False
+                s.exact = sc.doc_unknowns_per_system(ty, r, c) <= 15
+                build_history(s, pool, order, prng, apply_prob=0.2)
+                scen.append(s)
     return scen
 
 
@@ -1150,8 +1506,10 @@ def run(ctx):
         "hand-written model coq/SolveCount/CountModel.v, tied on every run by exact white-box comparison with the library "
         "(equation lists per system, counters, TRL dispatch, solve decision, calibration swap, parameter write-back, "
         "injected allocation failures) on generated add/solve histories",
-        "the numeric part of a solve (LU/QR rank decisions, convergence, p-value) is an uninterpreted oracle of the model; "
-        "determining_set_solves is not a Coq theorem: it is decided per case by the exact-rank oracle lib/solvecount.py",
+        "the numeric part of a solve (LU/QR rank decisions, convergence, p-value) is an uninterpreted oracle of the count model; "
+        "determining_set_solves is a Coq theorem about the exact numeric model (Cal/SolveSimple.v + CalQI.q_solve_system, Gaussian "
+        "rationals; joined with the count model under the hypothesis that both count the same equations), not about binary64: on the "
+        "library it is decided per case by the exact-rank oracle lib/solvecount.py and by the extracted numeric model (ocaml/drv_calcore2)",
         "extraction (ExtrOcamlBasic only) + ocaml/drv_solvecount.ml (parsing/printing glue)",
         "harness/solvecount_harness.c, harness/allocwrap.c, gcc ASan/UBSan/LSan",
     ]
@@ -1163,7 +1521,9 @@ def run(ctx):
                 "non-trivial = (required EDOM: type, dims, per-system counts) and (required success: scenario, position)")
 
     # ------------------------------------------------------------------ 1. Coq
-    vfiles = ["SolveCount/CountModel.v", "SolveCount/CountProofs.v", "Properties_C20.v"]
+    vfiles = ["SolveCount/CountModel.v", "SolveCount/CountProofs.v", "SolveCount/DeterminingGj.v",
+              "SolveCount/DeterminingProofs.v", "SolveCount/DeterminingCount.v", "SolveCount/DeterminingExamples.v",
+              "Properties_C20.v"]
     have_coq = all(os.path.exists(os.path.join(vplib.COQDIR, v)) for v in vfiles)
     coq_ok = False
     if have_coq:
@@ -1194,7 +1554,12 @@ def run(ctx):
                             "terms_checked", "dut_checked", "trl_dispatched", "writebacks", "alloc_faults", "writeback_faults",
                             "one_short_with_correlated")}
     stats.update({"worst_cond": 0.0, "worst_term_error": 0.0, "worst_dut_error": 0.0})
+    stats.update({k: 0 for k in ("numeric_points", "numeric_insufficient", "numeric_singular", "numeric_ok",
+                                 "numeric_singular_but_library_solved", "numeric_terms_exact", "numeric_terms_vs_library")})
+    stats["numeric_worst_term_error"] = 0.0
+    stats.update({"square_scaled_required": 0, "vector_resolve_terms": 0})
     scen = gen_scenarios(ctx) + gen_special(ctx) + gen_trl(ctx) + gen_correlated(ctx) + gen_writeback(ctx, exe)
+    scen += gen_minimal_scaled(ctx) + gen_resolve_vector(ctx)
     if drv is not None:
         scen += gen_argcheck(ctx, drv)
     ctx.log("%d scenarios" % len(scen))
@@ -1271,6 +1636,39 @@ def run(ctx):
         if s.sid % 37 == 0 and final:
             ctx.sample({"type": s.ty, "dims": "%dx%d" % (s.r, s.c), "standards": [op[1].key() for op in s.ops if op[0] == "add"][:8],
                         "final_counts": final.get("counts"), "final_solve_ok": final.get("ok")})
+    # the numeric model (q_solve_system / q_error_terms) at a sample of the solve points
+    def cheap(s, rec):
+        # exact elimination over Coq's binary rationals: square systems (LU) up to 8 unknowns are fast, the normal
+        # equations of a tall system only up to 3 unknowns (4-5 unknowns with one extra row)
+        u = sc.doc_unknowns_per_system(s.ty, s.r, s.c)
+        return all(n <= u or u <= 3 or (u <= 5 and n <= u + 1) for n in rec["np"]["counts"])
+    points = [(s, rec) for s, recs, c0, m0, cn, mn in index for rec in recs if rec.get("np") and cheap(s, rec)]
+    # one point per distinct (type, dims, standards so far as a set, verdict class); then a bounded sample
+    seen, uniq = set(), []
+    for s, rec in points:
+        key = (s.ty, s.r, s.c, s.group, frozenset(a["std"].key() for a in rec["np"]["adds"]))
+        if key not in seen:
+            seen.add(key)
+            uniq.append((s, rec))
+    cap = 200 if ctx.tier == "quick" else 1500
+    # at most a fifth of the sample are points that the count test alone decides
+    insuff = [x for x in uniq if any(n < sc.doc_unknowns_per_system(x[0].ty, x[0].r, x[0].c) for n in x[1]["np"]["counts"])]
+    rest = [x for x in uniq if x not in insuff]
+    ctx.rng.shuffle(insuff)
+    ctx.rng.shuffle(rest)
+    rest.sort(key=lambda x: 0 if not x[1]["np"]["fe"] else 1)      # enough equations but rank deficient: all of them first
+    rest = rest[:cap - cap // 5]
+    uniq = rest + insuff[:cap - len(rest)] if len(rest) < cap - cap // 5 else rest + insuff[:cap // 5]
+    uniq = uniq[:cap]
+    nbad_num = numeric_model_tie(ctx, uniq, stats) if uniq else 0
+    ctx.obligation("tie:numeric model (q_solve_system: counts, rank verdict = exact-rank oracle, true terms exactly, library terms)",
+                   nbad_num == 0 and stats["numeric_ok"] >= 20 and stats["numeric_singular"] >= 3 and stats["numeric_insufficient"] >= 10
+                   and stats["numeric_terms_vs_library"] >= 10,
+                   "%d points: %d insufficient, %d singular (%d of them solved by the library anyway), %d solved, %d exact term "
+                   "vectors, %d compared with the library (worst %.2g); %d problems"
+                   % (stats["numeric_points"], stats["numeric_insufficient"], stats["numeric_singular"],
+                      stats["numeric_singular_but_library_solved"], stats["numeric_ok"], stats["numeric_terms_exact"],
+                      stats["numeric_terms_vs_library"], stats["numeric_worst_term_error"], nbad_num))
     # order irrelevance on the implementation: same standards, different orders -> same counts and decision
     order_bad = 0
     for g, lst in groups.items():
@@ -1308,6 +1706,11 @@ def run(ctx):
     ctx.obligation("tie:coverage (required EDOM and required success both exercised)",
                    stats["edom_required"] > 50 and stats["solve_required"] > 50 and stats["dut_checked"] > 10,
                    "edom %d, success %d, dut %d" % (stats["edom_required"], stats["solve_required"], stats["dut_checked"]))
+    ctx.obligation("tie:coverage (minimal determining sets with scaled receiver readings; re-solves after a success with "
+                   "standards given as frequency tables)",
+                   stats["square_scaled_required"] >= 8 and stats["vector_resolve_terms"] >= 8,
+                   "%d required successes on square systems with readings scaled by 1e-7..1e7, %d term vectors of re-solves "
+                   "with table standards compared with the true terms" % (stats["square_scaled_required"], stats["vector_resolve_terms"]))
     searched = "%d solve calls in %d histories against the library, the model and the exact-rank oracle" % (stats["solves"], len(scen))
     if not ctx.violations:
         for name, ok, detail in list(ctx.obligations):
